@@ -9,6 +9,12 @@ PROPS = {
             {"name": "TestC01", "quick": 480, "thorough": 6000},
         ],
     },
+    "C03": {
+        "level": "fault_enumeration",
+        "tests": [
+            {"name": "TestC03", "quick": 400, "thorough": 4000},
+        ],
+    },
     "C10": {
         "level": "exploration",
         "tests": [
